@@ -224,9 +224,6 @@ Proof. unfold n_frac_ok, n_ok. destruct (k_maxn k); reflexivity. Qed.
 Lemma usable_agree k l : usable fixed k l = usable_spec k l.
 Proof. unfold usable, usable_spec. cbn [q_strict fixed]. rewrite n_ok_agree. reflexivity. Qed.
 
-Lemma robust_agree k : robust k = robust_spec k.
-Proof. reflexivity. Qed.
-
 Lemma sig_ok_agree k thr t : sig_ok fixed k thr t = signal_ok k thr t.
 Proof.
   unfold sig_ok, signal_ok. destruct (k_bigwig k) as [[bp bq]|]; [|reflexivity].
@@ -276,16 +273,45 @@ Proof.
   rewrite (le_div_iff (l_end l) (k_in k) (Z.of_nat t) Hw). tauto.
 Qed.
 
-Lemma cands_all_agree k : 1 <= k_jobs k -> (0 < k_in k)%Z ->
+Lemma scope_elim k : scope k = true ->
+  (0 < k_in k)%Z /\ 1 <= k_jobs k /\ NoDup (chroms_of k) /\
+  (forall c, In c (chroms_of k) -> c < length (k_genome k)) /\
+  match k_bigwig k with Some _ => (k_out k <=? k_in k)%Z = true | None => True end /\
+  (forall l, In l (k_loci k) -> l_chrom l < length (k_genome k)) /\
+  (forall c, c < length (k_genome k) -> has_signal k c = true).
+Proof.
+  unfold scope. rewrite !andb_true_iff.
+  intros [[[[[[[[[[H1 _] _] _] _] _] Hb] Hj] Hnd] Hc] Hl].
+  repeat split.
+  - apply Z.ltb_lt. exact H1.
+  - apply Nat.leb_le. exact Hj.
+  - apply (nodupb_NoDup Nat.eqb Nat.eqb_eq). exact Hnd.
+  - intros c Hin. rewrite forallb_forall in Hc. apply Nat.ltb_lt. apply Hc. exact Hin.
+  - destruct (k_bigwig k) as [[bp bq]|]; [|exact I].
+    rewrite !andb_true_iff in Hb. tauto.
+  - intros l Hin. rewrite forallb_forall in Hl. apply Nat.ltb_lt. apply Hl. exact Hin.
+  - intros c Hc'. unfold has_signal. destruct (k_bigwig k) as [[bp bq]|]; [|reflexivity].
+    rewrite !andb_true_iff in Hb. destruct Hb as [_ Hb]. rewrite forallb_forall in Hb.
+    apply Hb. unfold chrom_of. apply nth_In. exact Hc'.
+Qed.
+
+Lemma robust_agree k : robust k = robust_spec k.
+Proof. reflexivity. Qed.
+
+Lemma cands_all_agree k : scope k = true ->
   cands_all fixed k = filter (eligible k (robust_spec k)) (all_tiles k).
 Proof.
-  intros Hj Hw. unfold cands_all, all_tiles. cbv zeta.
+  intros Hsc. destruct (scope_elim k Hsc) as (Hw & Hj & _ & _ & _ & _ & _).
+  unfold cands_all, all_tiles. cbv zeta.
   rewrite parallel_map by exact Hj. rewrite combine_map_r, flat_map_map, filter_flat_map.
-  apply flat_map_ext_in. intros c _. cbn [fst snd].
-  unfold extract_chrom. rewrite !filter_map_comm, filter_filter. f_equal.
-  apply filter_ext_in'. intros t _. cbn [fst snd].
-  unfold eligible. rewrite masked_agree by exact Hw.
-  rewrite n_ok_agree, sig_ok_agree, robust_agree. reflexivity.
+  apply flat_map_ext_in. intros c Hc. cbn [fst snd].
+  unfold extract_chrom. destruct (has_signal k c) eqn:Hs.
+  - rewrite !filter_map_comm, filter_filter. f_equal.
+    apply filter_ext_in'. intros t _. cbn [fst snd].
+    unfold eligible. cbn [fst snd]. rewrite Hs, masked_agree by exact Hw.
+    rewrite n_ok_agree, sig_ok_agree, robust_agree. reflexivity.
+  - cbn [filter]. symmetry. apply filter_none. intros ct Hct.
+    apply in_map_iff in Hct as [t [<- _]]. unfold eligible. cbn [fst snd]. rewrite Hs. reflexivity.
 Qed.
 
 Lemma in_all_tiles k c t :
@@ -449,11 +475,11 @@ Lemma row_ok_coords k c t :
   row_ok k (robust_spec k) (coords k (c, t)) = true.
 Proof.
   intros Hw Hin He. apply in_all_tiles in Hin as [Hc Ht].
-  unfold eligible in He. rewrite !andb_true_iff in He. destruct He as [[Hn Hs] Ht'].
+  unfold eligible in He. rewrite !andb_true_iff in He. destruct He as [[[_ Hn] Hs] Ht'].
   apply negb_true_iff in Ht'.
   pose proof (row_tile_coords k (c, t) Hw) as RT.
   unfold row_ok. unfold coords in *. cbn [fst snd] in *.
-  rewrite RT, Hn, Hs, !andb_true_r.
+  rewrite RT, Hn, Hs, Ht', !andb_true_r.
   rewrite !andb_true_iff. repeat split.
   - apply existsb_exists. exists c. split; [exact Hc|apply Nat.eqb_refl].
   - apply Z.leb_le. nia.
@@ -461,38 +487,10 @@ Proof.
   - apply Z.eqb_eq. lia.
   - apply Z.leb_le. unfold ntiles in Ht.
     apply (le_div_iff (c_len (chrom_of k c)) (k_in k) (Z.of_nat t + 1) Hw). lia.
-  - apply forallb_forall. intros l Hl. apply negb_true_iff.
-    unfold touched in Ht'. cbn [fst snd] in Ht'.
-    assert (Hf : ((l_chrom l =? c) && (l_start l <? (Z.of_nat t + 1) * k_in k)%Z
-                  && (Z.of_nat t * k_in k <=? l_end l)%Z) = false).
-    { destruct (_ && _ && _) eqn:E; [|reflexivity].
-      assert (existsb (fun l0 => (l_chrom l0 =? c) && (l_start l0 <? (Z.of_nat t + 1) * k_in k)%Z
-                  && (Z.of_nat t * k_in k <=? l_end l0)%Z) (k_loci k) = true); [|congruence].
-      apply existsb_exists. exists l. split; assumption. }
-    destruct (Nat.eqb_spec (l_chrom l) c); cbn [andb] in *; [|reflexivity].
-    destruct (Z.ltb_spec (Z.of_nat t * k_in k) (l_end l)); cbn [andb]; [|reflexivity].
-    destruct (Z.ltb_spec (l_start l) ((Z.of_nat t + 1) * k_in k)); cbn [andb] in *; [|reflexivity].
-    apply Z.leb_gt in Hf. lia.
 Qed.
 
 (* ------------------------------------------------------------------------------------ *)
 (* the model's outcome satisfies the property, for every call                            *)
-
-Lemma scope_elim k : scope k = true ->
-  (0 < k_in k)%Z /\ 1 <= k_jobs k /\ NoDup (chroms_of k) /\
-  (forall c, In c (chroms_of k) -> c < length (k_genome k)) /\
-  match k_bigwig k with Some _ => (k_out k <=? k_in k)%Z = true | None => True end.
-Proof.
-  unfold scope. rewrite !andb_true_iff.
-  intros [[[[[[[[[[H1 _] _] _] _] _] Hb] Hj] Hnd] Hc] _].
-  repeat split.
-  - apply Z.ltb_lt. exact H1.
-  - apply Nat.leb_le. exact Hj.
-  - apply (nodupb_NoDup Nat.eqb Nat.eqb_eq). exact Hnd.
-  - intros c Hin. rewrite forallb_forall in Hc. apply Nat.ltb_lt. apply Hc. exact Hin.
-  - destruct (k_bigwig k) as [[bp bq]|]; [|exact I].
-    rewrite !andb_true_iff in Hb. tauto.
-Qed.
 
 Lemma run_ok_form qk k :
   match k_bigwig k with
@@ -511,12 +509,12 @@ Theorem model_meets_spec k : spec_ok k (model k) = true.
 Proof.
   unfold spec_ok. destruct (wf k) eqn:Hwf; [|reflexivity].
   unfold wf in Hwf. apply andb_true_iff in Hwf as [Hsc Hat].
-  destruct (scope_elim k Hsc) as (Hw & Hj & Hnd & Hclt & Hbw).
+  destruct (scope_elim k Hsc) as (Hw & Hj & Hnd & Hclt & Hbw & _ & _).
   unfold attrs in Hat. cbv zeta in Hat. rewrite !andb_true_iff in Hat.
   destruct Hat as [[[Hch Hlo] Hpl] Hpm].
   rewrite elig_hist_agree in Hpm.
   pose proof (filter_ext _ _ (usable_agree k) (k_loci k)) as EU.
-  pose proof (cands_all_agree k Hj Hw) as EC.
+  pose proof (cands_all_agree k Hsc) as EC.
   pose proof (nbins_agree k) as EN.
   set (nb := nbins_spec k) in *.
   set (ET := filter (eligible k (robust_spec k)) (all_tiles k)) in *.
